@@ -9,7 +9,6 @@ import (
 	"fmt"
 	"math/big"
 	"strings"
-	"sync"
 
 	sdkmath "cosmossdk.io/math"
 
@@ -705,49 +704,14 @@ func c13ConcurrentBatch(r *vk.Rng, n int) []c13Call {
 func runC13Concurrent(c *vk.Ctx) {
 	const goroutines = 8
 	c.Cases("concurrent-callers", c.N(24, 960), func(i int, r *vk.Rng) {
-		calls := c13ConcurrentBatch(r, 600)
-		ref := make([]string, len(calls))
-		for k, cl := range calls {
-			cl := cl
-			rec, _ := vk.Guard(func() { ref[k] = cl.fn() })
-			if rec != nil {
-				ref[k] = fmt.Sprint("panic: ", rec)
-			}
+		batch := c13ConcurrentBatch(r, 600)
+		calls := make([]vk.Call, len(batch))
+		for k, b := range batch {
+			calls[k] = vk.Call{Name: b.name, Fn: b.fn}
 		}
-		type bad struct {
-			k   int
-			got string
-		}
-		var mu sync.Mutex
-		var bads []bad
-		var wg sync.WaitGroup
-		for g := 0; g < goroutines; g++ {
-			wg.Add(1)
-			go func(g int) {
-				defer wg.Done()
-				for rep := 0; rep < 3; rep++ {
-					for k := (g * 37) % len(calls); k < len(calls); k += 1 + g%3 {
-						var got string
-						cl := calls[k]
-						rec, _ := vk.Guard(func() { got = cl.fn() })
-						if rec != nil {
-							got = fmt.Sprint("panic: ", rec)
-						}
-						if got != ref[k] {
-							mu.Lock()
-							if len(bads) < 5 {
-								bads = append(bads, bad{k, got})
-							}
-							mu.Unlock()
-						}
-					}
-				}
-			}(g)
-		}
-		wg.Wait()
 		c.Eval(int64(len(calls)) * 4)
-		for _, b := range bads {
-			c.Violate("C13.concurrent_callers", map[string]any{"fn": calls[b.k].name}, "%s returned %s when called alone and %s when %d goroutines were inside the math library at once (no operand is shared between the calls)", calls[b.k].name, ref[b.k], b.got, goroutines)
+		if k, alone, together := vk.ConcurrentSame(calls, goroutines, 3); k >= 0 {
+			c.Violate("C13.concurrent_callers", map[string]any{"fn": calls[k].Name}, "%s returned %s when called alone and %s when %d goroutines were inside the math library at once (no operand is shared between the calls)", calls[k].Name, alone, together, goroutines)
 			return
 		}
 		c.Class("concurrent|batch-of-600|%d-goroutines", goroutines)
